@@ -517,3 +517,76 @@ mod if_alloc {
 
 #[cfg(feature = "alloc")]
 pub use self::if_alloc::*;
+
+#[cfg(futures_intrusive_verif)]
+pub(crate) mod verif_hooks {
+    use super::*;
+    use crate::verif::{waker_id, NodeInfo};
+
+    pub(crate) fn recv_node_info(
+        node: &ListNode<RecvWaitQueueEntry>,
+    ) -> NodeInfo {
+        NodeInfo {
+            addr: node as *const _ as usize,
+            state: match node.state {
+                RecvPollState::Unregistered => 0,
+                RecvPollState::Registered => 1,
+                RecvPollState::Notified => 2,
+            },
+            waker: waker_id(&node.task),
+            extra: 0,
+            links: node.verif_links(),
+        }
+    }
+
+    pub(crate) fn send_node_info<T>(
+        node: &ListNode<SendWaitQueueEntry<T>>,
+        id: &dyn Fn(&T) -> u64,
+    ) -> NodeInfo {
+        NodeInfo {
+            addr: node as *const _ as usize,
+            state: match node.state {
+                SendPollState::Unregistered => 0,
+                SendPollState::Registered => 1,
+                SendPollState::SendComplete => 2,
+            },
+            waker: waker_id(&node.task),
+            extra: node.value.as_ref().map_or(0, |v| id(v) + 1),
+            links: node.verif_links(),
+        }
+    }
+
+    impl<'a, MutexType, T> ChannelReceiveFuture<'a, MutexType, T> {
+        /// Verification hook: the futures own wait node. Must not be called
+        /// while another thread is inside a critical section of the channel.
+        pub fn verif_node(&self) -> NodeInfo {
+            recv_node_info(&self.wait_node)
+        }
+    }
+
+    impl<'a, MutexType, T> ChannelSendFuture<'a, MutexType, T> {
+        /// Verification hook: the futures own wait node. Must not be called
+        /// while another thread is inside a critical section of the channel.
+        pub fn verif_node(&self, id: &dyn Fn(&T) -> u64) -> NodeInfo {
+            send_node_info(&self.wait_node, id)
+        }
+    }
+
+    #[cfg(feature = "alloc")]
+    impl<MutexType, T> shared::ChannelReceiveFuture<MutexType, T> {
+        /// Verification hook: the futures own wait node. Must not be called
+        /// while another thread is inside a critical section of the channel.
+        pub fn verif_node(&self) -> NodeInfo {
+            recv_node_info(&self.wait_node)
+        }
+    }
+
+    #[cfg(feature = "alloc")]
+    impl<MutexType, T> shared::ChannelSendFuture<MutexType, T> {
+        /// Verification hook: the futures own wait node. Must not be called
+        /// while another thread is inside a critical section of the channel.
+        pub fn verif_node(&self, id: &dyn Fn(&T) -> u64) -> NodeInfo {
+            send_node_info(&self.wait_node, id)
+        }
+    }
+}
